@@ -66,11 +66,11 @@ impl ConcFamily {
   fn gen_producer(&self, rng: &mut Rng, fl: Flavour, quota: u64) -> Producer {
     let p = &self.profile;
     let mut ops = vec![];
-    let mut left = quota;
+    let mut left = if fl == Flavour::Oneshot { 1 } else { quota };
     while left > 0 {
       // life-cycle / chaos ops in between
       match rng.below(20) {
-        0 if p.asyncness == 2 => ops.push(POp::Convert),
+        0 if p.asyncness == 2 && fl.has_conversions() => ops.push(POp::Convert),
         1 if fl.multi_producer() => ops.push(POp::CloneSwap),
         2 if fl.multi_producer() => ops.push(POp::CloneDrop),
         3 => ops.push(POp::Observe),
@@ -99,7 +99,7 @@ impl ConcFamily {
     let k = rng.range(1, 4);
     for _ in 0..k {
       match rng.below(16) {
-        0 if p.asyncness == 2 => ops.push(COp::Convert),
+        0 if p.asyncness == 2 && fl.has_conversions() => ops.push(COp::Convert),
         1 if fl.multi_consumer() => ops.push(COp::CloneSwap),
         2 if fl.multi_consumer() => ops.push(COp::CloneDrop),
         3 => ops.push(COp::Observe),
@@ -107,7 +107,7 @@ impl ConcFamily {
         _ => {}
       }
       let mut forms = vec![RecvForm::Single, RecvForm::Single, RecvForm::Try];
-      if p.timed {
+      if p.timed && fl.has_timed_recv() {
         forms.push(RecvForm::Timeout);
         forms.push(RecvForm::Timeout);
       }
@@ -142,7 +142,8 @@ impl Family for ConcFamily {
 
   fn generate(&self, rng: &mut Rng) -> ChanSc {
     let p = &self.profile;
-    let fl = *rng.pick(&p.flavours);
+    let flavours: Vec<Flavour> = p.flavours.iter().copied().filter(|f| p.asyncness != 0 || *f != Flavour::Oneshot).collect();
+    let fl = *rng.pick(&flavours);
     let cap = *rng.pick(&[1usize, 1, 2, 2, 3, 4, 5, 8]);
     let async_ctor = match p.asyncness {
       0 => false,
